@@ -2,6 +2,7 @@
 CONSTANTS
   Kind = "bridge"
   Fixed = TRUE
+  FixedF11 = TRUE
   H = 3
   MaxBlocks = 3
   MaxEvents = 2
